@@ -30,6 +30,9 @@ CHECKS = {
  'C11': dict(cat=MC, technique='TLA+ model of Miner damage and the Gassner identity on the log2 lattice with exact integer sums (spec/miner); TLC enumerates curves x collectives incl. every emptiness pattern; each state evaluated through fatigue.damage / gassner_miner_* / solidity for 4 collective layouts',
    text='Linearity, order independence, rule ordering and the Gassner identity (damage exactly 1 at the predicted cycles) are exact statements on power-of-two data; TLC proves them on the specification for every collective of the bounded instance (counts include 0 at the top, bottom and in between) and every state is an implementation test with exact expectation.',
    note='lattice restriction; fixed defect C11-empty-top-class; open finding C11-haibach-below-SD', ref='5 C11'),
+ 'C09': dict(cat=MC, technique='TLA+ transcription (spec/fkmnl) of the P_RAM / P_RAJ component curves on the log2 lattice, the P_RAM parameter case analysis, DamageCalculatorPRAM as coded vs literal accumulation in exact integers, and the safety-factor case analysis; TLC enumerates all sub-lattices; each state evaluated through the real classes',
+   text='Curves, parameter zero rule, accumulation (x = (1-D1)/D2 and the early-failure search vs literally adding first-pass damage once and second-pass damage repeatedly, half hystereses half) and the safety-factor cases are finite case analyses with exact arithmetic on the chosen lattices; TLC proves as-coded = definition on the specification and each lattice state is one implementation test.',
+   note='compute_beta is only spot-checked numerically (no lattice); P_RAJ accumulation not modelled (exercised via C10)', ref='5 C09'),
 }
 PENDING = 'check not built yet in this round (planned, see DESIGN.md section 5)'
 NA = {
